@@ -39,6 +39,7 @@ def run_cases(cases):
         for k, v in (c.get("env") or {}).items():
             os.environ[k] = str(v)
         pos = os.path.getsize(side)
+        S._seen_known.clear()
         try:
             mod = _load(c["file"])
             if hasattr(mod, "reconfigure"):
